@@ -119,7 +119,8 @@ package resp
 //@   ghostset after ReadHeader: rhOK = ite(result == nil, rhOK + 1, -1)
 //@   top-ensures err == nil ==> rhOK == 1 || rhOK == 2
 
-// ReadRespBody: no byte of the connection is read for a response that must not carry a body; otherwise the body
+// ReadRespBody: no byte of the connection is read for a response that must not carry a body, and such a response is
+// never rejected (whatever length its header announces - nothing of it is on the wire); otherwise the body
 // is read once, with the caller's limit; the trailer section is read only after a chunked body was read without
 // error; the Content-Length header is then set to the length of the body that was read.
 //@ ghost var rbSkip bool
@@ -140,6 +141,7 @@ package resp
 //@   assert before ReadTrailer: rbBody == 1 && rbChunked
 //@   assert before SetContentLength: rbBody == 1
 //@   top-ensures rbSkip ==> rbBody == 0
+//@   top-ensures rbSkip ==> err == nil
 
 // Closing a streamed response: the body stream is released (drained) exactly once, before the close callback
 // decides about the connection, and the wrapper is cleared afterwards (typestate).
